@@ -784,6 +784,11 @@ func (ex *Exec) loadGlobal(st *State, g *ssa.Global) Val {
 		if _, changed := st.heap[globalKey(g, ".t")]; !changed {
 			id := ex.typeTag("errsentinel:" + shortPkgOf(g.Pkg) + "." + g.Name())
 			ex.axiom(and(eq(out.L[0], fmt.Sprint(ex.typeTag("T:*errors.errorString"))), eq(out.L[1], fmt.Sprintf("(- 0 %d)", 5000+id))))
+			if initialisedByErrorsNew(g) {
+				// errors.New values wrap nothing: they match only themselves
+				f := ex.declFun("errIs", []string{sInt, sInt, sInt, sInt}, sBool)
+				ex.axiom("(forall ((qt0 Int) (qt1 Int)) (! (not " + app(f, out.L[0], out.L[1], "qt0", "qt1") + ") :pattern (" + app(f, out.L[0], out.L[1], "qt0", "qt1") + ")))")
+			}
 		}
 	}
 	if sl, ok := T.Underlying().(*types.Slice); ok && len(out.L) == 4 {
@@ -1693,4 +1698,32 @@ func writeOnceCaptured(a *ssa.Alloc) bool {
 		}
 	}
 	return stores == 1
+}
+
+
+// initialisedByErrorsNew: the package initialiser assigns the global exactly once, from errors.New(...).
+func initialisedByErrorsNew(g *ssa.Global) bool {
+	if g.Pkg == nil {
+		return false
+	}
+	init := g.Pkg.Func("init")
+	if init == nil {
+		return false
+	}
+	n, okNew := 0, false
+	for _, b := range init.Blocks {
+		for _, in := range b.Instrs {
+			st, ok := in.(*ssa.Store)
+			if !ok || st.Addr != ssa.Value(g) {
+				continue
+			}
+			n++
+			if c, ok := st.Val.(*ssa.Call); ok {
+				if fn := c.Call.StaticCallee(); fn != nil && calleeName(fn) == "errors.New" {
+					okNew = true
+				}
+			}
+		}
+	}
+	return n == 1 && okNew
 }
